@@ -277,6 +277,8 @@ def check_tree(tree, got):
     args = (tree['files'], tree['root_body'], tree['root_loc'], tree['sysprefix'], tree['have_fetch'])
     exp = c17_ref.ref_run(*args)
     bad = compare(tree, got, exp)
+    if not bad and got.get('again_differs'):
+        return [('second-run-with-the-same-options-resolves-differently', got['again_differs'])]
     if bad and exp['fail'] is not None and exp['fail'][0] == 'parser':
         # classification only: is this exactly "the parser error was lost at the enclosing function call" (candidate finding F15)?
         alt = c17_ref.ref_run(*args, swallow_parser_error_in_function=True)
